@@ -38,6 +38,24 @@ let parse_drv s = if s = "-" then None else
 let parse_net file : rawnode list =
   let lines = read_lines file in
   if List.exists (fun l -> String.length l >= 4 && String.sub l 0 4 = "SKIP") lines then raise (Unsupported "skipped design");
+  (* the cycle semantics has ONE rising-edge clock: registers on several clocks, or on a clock that does not
+     trigger on the rising edge only, are outside the model (the differential oracle still covers them) *)
+  let trig = Hashtbl.create 7 in
+  List.iter (fun l -> match split l with
+    | "clock" :: id :: rest -> List.iter (fun t -> if String.length t > 5 && String.sub t 0 5 = "trig=" then Hashtbl.replace trig id (String.sub t 5 (String.length t - 5))) rest
+    | _ -> ()) lines;
+  let regclk = List.filter_map (fun l ->
+    if String.length l > 2 && l.[0] = 'N' && l.[1] = ' ' then
+      (match String.index_opt l '|' with
+       | Some i -> (match split (String.sub l 2 (i - 2)) with
+                    | _ :: "reg" :: rest when rest <> [] -> Some (List.nth rest (List.length rest - 1))
+                    | _ -> None)
+       | None -> None)
+    else None) lines in
+  (match List.sort_uniq compare regclk with
+   | [] -> ()
+   | [c] -> (match Hashtbl.find_opt trig c with Some "0" | None -> () | Some _ -> raise (Unsupported "register clock not rising-edge"))
+   | _ -> raise (Unsupported "registers on several clocks"));
   List.filter_map (fun l ->
     if String.length l > 2 && l.[0] = 'N' && l.[1] = ' ' then begin
       match String.index_opt l '|' with
